@@ -125,6 +125,7 @@ func init() {
 		addSpec(&propSpec{ID: id, Level: "exploration", QuickRuns: 1600, ThorRuns: 40000, QuickSecs: 75, ThorSecs: 900})
 	}
 	addSpec(&propSpec{ID: "C04", Level: "exploration", QuickRuns: 1600, ThorRuns: 40000, QuickSecs: 75, ThorSecs: 900})
+	addSpec(&propSpec{ID: "C06", Level: "exploration", QuickRuns: 1200, ThorRuns: 30000, QuickSecs: 75, ThorSecs: 900})
 	addSpec(&propSpec{ID: "C08", Level: "exploration", QuickRuns: 1600, ThorRuns: 40000, QuickSecs: 75, ThorSecs: 900})
 	addSpec(&propSpec{ID: "C11", Level: "exploration", QuickRuns: 800, ThorRuns: 40000, QuickSecs: 75, ThorSecs: 900})
 	addSpec(&propSpec{ID: "C12", Level: "exploration", QuickRuns: 1600, ThorRuns: 40000, QuickSecs: 75, ThorSecs: 900})
